@@ -54,6 +54,16 @@ class Mem2Var(IRPass):
         if not all2(inst.opcode in ["mstore", "mload", "return"] for inst in uses):
             return
 
+        # the alloca must only be used as the ADDRESS of these instructions:
+        # `mstore %q, %p` (the pointer stored as a value) or `return %o, %p`
+        # (the pointer used as a size) let the address escape
+        ptr = alloca_inst.output
+        for inst in uses:
+            if inst.opcode == "mstore" and inst.operands[0] == ptr:
+                return
+            if inst.opcode == "return" and inst.operands[0] == ptr:
+                return
+
         size = size_lit.value
         var = IRVariable(self._mk_varname(var.value))
 
